@@ -1,1 +1,13 @@
 import Lmd.Props.C03
+#print axioms Lmd.C03.tsBlocks_exact
+#print axioms Lmd.C03.tsBlocks_count
+#print axioms Lmd.C03.tsBlocks_separated
+#print axioms Lmd.C03.applyDelta_copies_current
+#print axioms Lmd.C03.row_after_cells
+#print axioms Lmd.C03.no_tear_step
+#print axioms Lmd.C03.delta_success_stamps
+#print axioms Lmd.C03.delta_window_used
+#print axioms Lmd.C03.delta_reply_window
+#print axioms Lmd.C03.windows_contiguous
+#print axioms Lmd.C03.fullscan_detects
+#print axioms Lmd.C03.fullscan_refetches
